@@ -77,19 +77,22 @@ type zzSeg struct {
 	HasName                                     bool
 }
 
+// zzSide is the side table of the modular encodeVLQ stand-in: the arguments
+// of its calls in call order.
+var zzSide []int
+
 // zzVLQOpaque is the modular stand-in for encodeVLQ used by the executor
-// (-redirect): the argument travels as ten bytes 0x80|7 bits, so that the
-// piece is self-delimiting by construction, never collides with ';' or ','
-// and is decoded by plain bit reassembly. Its argument must lie in the range
-// for which ZZH9aVLQ shows the real encoder correct (sign/magnitude and the
-// 5-bit digits are that harness's business).
+// (-redirect): an atomic, self-delimiting piece that carries its argument.
+// The piece is two bytes 0x80|hi, 0x80|lo holding the index of the argument in
+// zzSide (so it never collides with ';' or ',' and pieces stay distinguishable
+// if the caller reorders, drops or repeats them). Its argument must lie in the
+// range for which ZZH9aVLQ shows the real encoder correct (sign/magnitude and
+// the 5-bit digits are that harness's business).
 func zzVLQOpaque(n int) string {
 	sym.Assert(sym.And(n >= -(1<<31), n <= 1<<31), "vlq-argument-in-contract-range")
-	b := make([]byte, 10)
-	for i := 0; i < 10; i++ {
-		b[i] = byte((n>>(7*uint(i)))&127) | 128
-	}
-	return string(b)
+	idx := len(zzSide)
+	zzSide = append(zzSide, n)
+	return string([]byte{byte(0x80 | (idx >> 6)), byte(0x80 | (idx & 63))})
 }
 
 // zzDigit returns the 6-bit VLQ digit at s[i] or -1 (raw: opaque pieces).
@@ -107,17 +110,14 @@ func zzDecodeVLQAt(s string, i int, raw bool) (int, int, bool) {
 	if !raw {
 		return zzDecodeVLQ(s, i)
 	}
-	if i+10 > len(s) {
+	if i+2 > len(s) || s[i] < 128 || s[i+1] < 128 {
 		return 0, i, false
 	}
-	result := 0
-	for k := 0; k < 10; k++ {
-		if s[i+k] < 128 {
-			return 0, i, false
-		}
-		result |= (int(s[i+k]) & 127) << (7 * uint(k))
+	idx := (int(s[i])&63)<<6 | int(s[i+1])&63
+	if idx >= len(zzSide) {
+		return 0, i, false
 	}
-	return result, i + 10, true
+	return zzSide[idx], i + 2, true
 }
 
 // zzDecodeMappings is an independent Source Map v3 "mappings" decoder.
@@ -316,4 +316,21 @@ func ZZH9cHistory() {
 		}
 	}
 	sym.Cover("end")
+}
+
+// ZZSeg is a decoded segment (exported for the writer-level harnesses).
+type ZZSeg struct {
+	GenLine, GenCol, Src, SrcLine, SrcCol, Name int
+	HasName                                     bool
+}
+
+// ZZDecode decodes a mappings string with the reference decoder R1. raw: the
+// string was produced under the modular encodeVLQ stand-in (executor only).
+func ZZDecode(mappings string, raw bool) ([]ZZSeg, bool) {
+	segs, ok := zzDecodeMappings(mappings, raw)
+	out := make([]ZZSeg, len(segs))
+	for i, s := range segs {
+		out[i] = ZZSeg{s.GenLine, s.GenCol, s.Src, s.SrcLine, s.SrcCol, s.Name, s.HasName}
+	}
+	return out, ok
 }
